@@ -71,6 +71,34 @@ def replay(obligation, extra):
         if run.exception or 'ping' not in names or names.count('text') != 2:
             return dict(found=True, input='Ping arriving while %s' % ('the client is closing' if what == 'closing' else 'the transport refuses writes'),
                         expected='Pong dropped silently, event stream undisturbed', observed='events %r %s' % (names, run.exception or ''))
+    # close() on ANOTHER thread that has not written its Close frame yet (held just before it hands the frame on): a Ping
+    # handled by the event loop at that moment is still owed its Pong ("has not yet sent a Close frame")
+    from replay import sched
+    for reason in (b'bye', 'bye'):
+        tried += 1
+        gate = sched.Gate(timeout=1.0)
+        box = {}
+
+        def react(ws, ev, k, run, gate=gate, box=box, reason=reason):
+            if ev.name == 'text' and ev.text == 'go':
+                box['t'] = sched.run_thread(sched.trace_gate(lambda: ws.close(1000, reason), 'close', '_send_close(', gate, 'websocket.py'), 'closer')
+                gate.reached.wait(1.0)
+            elif ev.name == 'ping':
+                box['wire_at_ping'] = list(run.sock.out)
+                gate.go.set()
+                box['t'].join(2.0)
+        stream = ref.server_frame(1, b'go') + ref.server_frame(9, b'late')
+        run = harness.drive(stream=stream, react=react, connect_kwargs=dict(ping_rate=0))
+        if 't' in box:
+            gate.go.set()
+            box['t'].join(2.0)
+        at_ping = [d for w in box.get('wire_at_ping', [])[1:] for d in ref.decode_all(w)]
+        closes_before = [d for d in at_ping if d and d['opcode'] == 8]
+        pongs = [d for d in at_ping if d and d['opcode'] == 10 and d['payload'] == b'late']
+        if gate.hits and not closes_before and not pongs:
+            return dict(found=True, input='thread B is inside close(1000, %r) but has not written its Close frame yet (held just before it hands the frame on); '
+                        'the event loop receives Ping(b"late")' % (reason,),
+                        expected='the Pong is written: no Close frame has been sent', observed='no Pong; wire when the application sees the Ping: %r' % [d and d['opcode'] for d in at_ping])
     return dict(found=False, tried='%d runs' % tried)
 
 
